@@ -625,8 +625,9 @@ class DictConverter(t.Generic[FromDataK, FromDataV], Converter[t.Mapping[FromDat
         if not data_is_mapping(val):
             raise ParseInterrupt()
 
-        d = {self.k_conv.try_convert(k): self.v_conv.try_convert(v) for (k, v) in val.items()}
         try:
+            # a converted key may be unhashable (e.g. a list): not a valid key
+            d = {self.k_conv.try_convert(k): self.v_conv.try_convert(v) for (k, v) in val.items()}
             return self.constructor(d)
         except Exception:
             raise ParseInterrupt()
